@@ -163,7 +163,7 @@ def gen_connect(rng, kind):
         elif r0 < 0.35:
             ops.append("b")          # AF_INET socket first: T6 then fails in connect(2) itself
     else:
-        pool = ["Pl", "Pm", "Po", "Pe", "Pn", "Q0l", "Q0m", "Q0o", "Q1o", "Q1l", "Q2l", "Q0z", "Q0e", "Q0n"]
+        pool = ["Pl", "Pm", "Po", "Pe", "Pn", "Pf", "Q0l", "Q0m", "Q0o", "Q1o", "Q1l", "Q2l", "Q0z", "Q0e", "Q0n", "Q0f"]
     overlap = rng.random() < 0.12           # a second connect while one is pending
     for _ in range(rng.randint(1, 5)):
         ops.append(rng.choice(pool))
@@ -254,7 +254,7 @@ def acc_model_input(case, out):
                                                 alloc, opn, " ".join(kinds))
 
 
-PIPE_LEN = {"l": 40, "m": 40, "n": 40, "o": 400, "e": 0, "z": 43}
+PIPE_LEN = {"l": 40, "m": 40, "n": 40, "f": 40, "o": 400, "e": 0, "z": 43}
 
 
 def con_op(o):
@@ -452,7 +452,7 @@ def ipc_monitor(case, out):
     return None
 
 
-CON_EXPECT = {"Tl": 0, "Tc": -111, "Pl": 0, "Pm": -2, "Po": -2, "Pe": -22, "Pn": -111}
+CON_EXPECT = {"Tl": 0, "Tc": -111, "Pl": 0, "Pm": -2, "Po": -2, "Pe": -22, "Pn": -111, "Pf": -11}
 
 
 def connect_monitor(case, out):
@@ -517,6 +517,41 @@ def connect_monitor(case, out):
             if r in overlapped and not PIPE_CONNECT_EALREADY:
                 return K_LOST, "connect request %d on a pipe was overwritten by a second uv_pipe_connect and never completes" % r
             return None, "request %d (submitted with 0) never completed" % r
+    # "status 0 iff the connection was established": what the harness's listeners and getpeername saw.
+    # Skipped when SO_ERROR answers were forged (the kernel's view then differs on purpose).
+    sec_all = [v.strip() for v in out.split(";")]
+    vlog = sec_all[5].split() if len(sec_all) > 5 else []
+    forged = any(t[0] == "g" and t != "gp" and t != "g115" for t in script.split())
+    if vlog and not forged:
+        ents = []
+        for t in vlog:
+            f = t[1:].split(",")
+            ents.append((t[0], f))
+        for i, (k, f) in enumerate(ents):
+            if k != "c":
+                continue
+            r, st, arr, gp = int(f[0]), int(f[1]), int(f[2]), int(f[3])
+            if st == 0 and gp != 0:
+                return None, "connect callback of request %d reported status 0 but the socket is not connected " \
+                             "(getpeername: errno %d)" % (r, -gp)
+            # arrivals between this request's submission and the next submission (or the end)
+            j0 = next((j for j, (k2, f2) in enumerate(ents) if k2 == "s" and int(f2[0]) == r), None)
+            if j0 is None:
+                continue
+            j1 = next((j for j in range(j0 + 1, len(ents)) if ents[j][0] == "s"), len(ents) - 1)
+
+            def arr(j):      # an entry logs the arrivals since the entry before it
+                k2, f2 = ents[j]
+                return int(f2[2]) if k2 in "sc" else int(f2[0])
+            upto_cb = sum(arr(j) for j in range(j0 + 1, i + 1))
+            upto_next = sum(arr(j) for j in range(j0 + 1, min(j1, len(ents) - 1) + 1))
+            others = [j for j in range(j0 + 1, i) if ents[j][0] in "sc"]          # anything between submit and callback
+            if st == 0 and upto_cb == 0:
+                return None, "connect callback of request %d reported status 0 but no connection reached the " \
+                             "listener" % r
+            if st not in (0, -125) and upto_next > 0 and not others and r not in overlapped and r not in late:
+                return None, "connect callback of request %d reported status %d although the connection was " \
+                             "established (the listener got it)" % (r, st)
     # status against what the harness arranged (no injected answers, callbacks do nothing)
     top = ops.split()
     if not script and not behs.replace("|", "").strip() and top:
@@ -525,7 +560,7 @@ def connect_monitor(case, out):
                 return None, "connect %s completed with status %d, expected %d" % (top[0], cbs[0][0], CON_EXPECT[top[0]])
         # pipes: a connect to a missing / over-long / empty / non-socket path fails in the call itself,
         # so the first loop iteration after it must deliver that error
-        fail = {"Pm": -2, "Po": -2, "Pe": -22, "Pn": -111, "Q0m": -2, "Q0o": -2, "Q0n": -111}
+        fail = {"Pm": -2, "Po": -2, "Pe": -22, "Pn": -111, "Pf": -11, "Q0m": -2, "Q0o": -2, "Q0n": -111, "Q0f": -11}
         rid, closing = 0, False
         for j, o in enumerate(top):
             if o == "C":
@@ -671,10 +706,10 @@ FIXED = {
             "i ; Mtudtudtudt Mtudtudtud R R N " + "Af T N " * 20 + "; ; ",
             "i ; " + "Mt R " * 9 + "F1 Mt R N Mu R N " + "Af " * 11 + "; ; ",   # growth allocation fails
             "i ; Mt R F1 Mu R N Md R N Af Af Af ; ; "],                    # first allocation fails
-    "con-t": ["t ; b T6 R T6 Tl R R C R ; ; ", "t ; Tl R Tc Tc R C R ; ; e101 e99 e24", "t ; Tl Tc R R ; Tc Tl ; s24 p s23",
+    "con-t": ["t ; B Tl R R C R ; ; ", "t ; B Tl R R Tl R R C R ; ; ", "t ; b T6 R T6 Tl R R C R ; ; ", "t ; Tl R Tc Tc R C R ; ; e101 e99 e24", "t ; Tl Tc R R ; Tc Tl ; s24 p s23",
               "t ; Tl R R C R ; ; ", "t ; Tc R R C R ; ; ", "t ; Tl C R R ; ; ", "t ; B Tl R R C R ; Tl ; ",
               "t ; Tl Tl R R C R ; ; e4 e111"],
-    "con-p": ["p ; Pl R Pm R Po R Pe R Pn R C R ; ; ", "p ; Q1o Q2l Q0z Q0e Q0o R C R ; ; ", "p ; Pm C R ; ; s24",
+    "con-p": ["p ; Pf R R Pl R R C R ; ; ", "p ; Q0f R Pf R C R ; ; ", "p ; Pl R Pm R Po R Pe R Pn R C R ; ; ", "p ; Q1o Q2l Q0z Q0e Q0o R C R ; ; ", "p ; Pm C R ; ; s24",
               "p ; Q0l Q0m R R C R R ; ; ",                               # a second connect while one is pending
               "p ; Pl Pm Po R R C R R ; ; ", "p ; Pl Pm Q0m C R R ; ; ", "p ; Pm Pl R Pl Pn Pe R R C R ; Pm Pl | | Pl ; "],
 }
